@@ -447,6 +447,10 @@ pub fn run_property(prop: &Property, tier: Tier, seed: u64, only_part: Option<&s
         known,
     };
     let mut reports = Vec::new();
+    crate::xmlstrict::xcheck_enable(match tier {
+        Tier::Quick => 30_000,
+        Tier::Thorough => 400_000,
+    });
     for part in &prop.parts {
         if let Some(only) = only_part {
             if part.name() != only {
@@ -514,8 +518,62 @@ pub fn run_property(prop: &Property, tier: Tier, seed: u64, only_part: Option<&s
             println!("VIOLATION property={} replay={}", prop.id, path.display());
         }
     }
-    write_evidence(prop, tier, seed, &reports, violations, start.elapsed().as_secs_f64());
+    let xcheck = cross_check_strict_parser(prop.id);
+    if let Some(x) = &xcheck {
+        if x["disagreements"].as_u64().unwrap_or(0) > 0 && exit == 0 {
+            eprintln!(
+                "INCONCLUSIVE: the harness's strict XML parser and expat disagree on {} of {} documents (first: {}); the well-formedness oracle cannot be trusted for this run",
+                x["disagreements"], x["documents"], x["first_disagreement"]
+            );
+            exit = 2;
+        }
+    }
+    write_evidence(prop, tier, seed, &reports, violations, start.elapsed().as_secs_f64(), xcheck);
     exit
+}
+
+/// Hand every distinct document the strict parser judged in this run (up to the cap) to Python's
+/// expat binding and compare verdicts. `None` when nothing was parsed or python3 is unavailable
+/// (recorded as such in the evidence). A disagreement never becomes a violation: it means the
+/// oracle is unsound or incomplete for that input, and the run is inconclusive (exit 2).
+fn cross_check_strict_parser(id: &str) -> Option<Value> {
+    let (calls, kept) = crate::xmlstrict::xcheck_take();
+    if kept.is_empty() {
+        return None;
+    }
+    let root = verif_root();
+    let dir = root.join("target").join("xcheck");
+    let _ = std::fs::create_dir_all(&dir);
+    let path = dir.join(format!("{id}-{}.jsonl", std::process::id()));
+    let mut body = String::new();
+    for (doc, ok) in &kept {
+        body.push_str(&json!({"d": doc, "wf": ok}).to_string());
+        body.push('\n');
+    }
+    if std::fs::write(&path, body).is_err() {
+        return Some(json!({"documents": kept.len(), "ran": false, "why": "cannot write the sample"}));
+    }
+    let out = std::process::Command::new("python3")
+        .arg(root.join("tools").join("expat_check.py"))
+        .arg(&path)
+        .output();
+    if std::env::var_os("VERIF_XCHECK_KEEP").is_none() {
+        let _ = std::fs::remove_file(&path);
+    }
+    match out {
+        Ok(o) if o.status.success() => {
+            match serde_json::from_slice::<Value>(&o.stdout) {
+                Ok(mut v) => {
+                    v["ran"] = json!(true);
+                    v["strict_parser_calls"] = json!(calls);
+                    Some(v)
+                }
+                Err(e) => Some(json!({"documents": kept.len(), "ran": false, "why": format!("unreadable result: {e}")})),
+            }
+        }
+        Ok(o) => Some(json!({"documents": kept.len(), "ran": false, "why": String::from_utf8_lossy(&o.stderr).chars().take(300).collect::<String>()})),
+        Err(e) => Some(json!({"documents": kept.len(), "ran": false, "why": format!("python3: {e}")})),
+    }
 }
 
 fn write_evidence(
@@ -525,6 +583,7 @@ fn write_evidence(
     reports: &[PartReport],
     violations: i32,
     wall_s: f64,
+    xcheck: Option<Value>,
 ) {
     let root = verif_root();
     let dir = root.join("evidence");
@@ -579,6 +638,7 @@ fn write_evidence(
             "samples": samples,
             "exhaustive": exhaustive,
             "parts": parts,
+            "strict_xml_parser_cross_check_with_expat": xcheck,
         },
         "assumptions": assumptions,
         "wall_s": wall_s,
